@@ -27,7 +27,13 @@ LATEB = "TYPE\n  LVL3 : LVL;\nEND_TYPE\n"
 SUBR_AS_LVL = "TYPE\n  LVL : INT (1..10);\nEND_TYPE\n"
 FB_AS_LVL = "FUNCTION_BLOCK LVL\n  VAR\n    x : INT;\n  END_VAR\n  x := 1;\nEND_FUNCTION_BLOCK\n"
 
+# scoping: a block that is valid on its own; its faulty version uses a name that IS declared - in a sibling declaration
+VICTIM = "FUNCTION_BLOCK VICTIM\n  VAR\n    a : INT;\n  END_VAR\n  a := a + 1;\nEND_FUNCTION_BLOCK\n"
+WANDER = "FUNCTION_BLOCK WANDER\n  VAR\n    a : INT;\n  END_VAR\n  a := a + 2;\nEND_FUNCTION_BLOCK\n"
+
 KINDS = {
+    "V": ("VICTIM", [], VICTIM),
+    "W": ("WANDER", [], WANDER),
     "R": ("RNG", [], SUBR),
     "AR": ("ARR", [], ARRT),
     "ST": ("STR10", [], STRT),
@@ -48,6 +54,8 @@ KINDS = {
 
 # context-free rule violations (the documented 'Fails' shapes), per declaration kind: (text, code, lexeme the label must name)
 RULE_FAULT = {
+    "V": (VICTIM.replace("a := a + 1;", "c(in1 := a, out1 => a);"), "P0021", "c(in1 := a, out1 => a)"),      # the label covers the invocation; c is an instance of USER, not of VICTIM
+    "W": (WANDER.replace("a := a + 2;", "a := n + 2;"), "P0015", "n"),                   # n is a variable of MAIN, not of WANDER
     "R": (SUBR.replace("1..10", "10..1"), "P0004", "10"),
     "E": (ENUM.replace("(LO, MID, HI)", "(LO, MID, HI, LO)"), "P0005", "LO"),
     "E2": (ALIAS.replace(":= MID", ":= NOPE"), "P0014", "NOPE"),
@@ -119,6 +127,8 @@ def scenarios():
     sc["cross_RX"] = [(x, "none") for x in ["E", "C", "RX"]]
     sc["cross_CX"] = [(x, "none") for x in ["E", "C", "CX"]]
     sc["rule_R"] = [("E", "none"), ("C", "none"), ("R", "rule")]
+    sc["rule_V"] = [("E", "none"), ("E2", "none"), ("C", "none"), ("U", "none"), ("V", "rule")]
+    sc["rule_W"] = [("E", "none"), ("E2", "none"), ("C", "none"), ("U", "none"), ("M", "none"), ("W", "rule")]
     sc["missing_E"] = [(x, "none") for x in ["E2", "C", "U", "M"]]
     sc["missing_C"] = [(x, "none") for x in ["E", "E2", "U", "M"]]
     sc["valid4"] = [(x, "none") for x in ["E", "E2", "C", "U"]]
